@@ -114,8 +114,9 @@ def check_calls(tr, prop=ID):
       raise Violation(prop, key, '%s: not completed %.0f ms after its deadline' % (where, (tr.end - t - T) * 1000))
     ct, kind, payload, seq = rec.first
     fin = tr.final.get(rec.id)
-    if fin is None or not same_outcome((kind, payload), fin):
-      raise Violation(prop, 'completion-changed', '%s: first completed with %s %r, at the end of the run it holds %r' % (where, kind, payload, fin))
+    if fin is None or not same_outcome((kind, payload), fin) or tr.final_snapshot.get(rec.id) != rec.first_snapshot:
+      raise Violation(prop, 'completion-changed', '%s: first completed as %r, at the end of the run the result shows %r' % (
+          where, rec.first_snapshot, tr.final_snapshot.get(rec.id)))
     if kind == 'value':
       if payload not in [echo(p, rec.method, rec.arg) for p in ports]:
         raise Violation(prop, 'foreign-value', '%s: returned %r, which no endpoint produced for this call' % (where, payload))
